@@ -378,7 +378,10 @@ class Monitor:
         ctx = self.ctx
         what = kw.pop("_what", None)
         self._last_arg_ids = {id(a) for a in args} | {id(v) for v in kw.values()}
+        import time as _t
+        _t0 = _t.time()
         before = self.snapshot((args, kw))
+        _t1 = _t.time()
         nobj = _count_leaves(before)
         try:
             res = fn(*args, **kw)
@@ -388,7 +391,10 @@ class Monitor:
         except BaseException as ex:  # UFL has error classes deriving from BaseException (ArityMismatch, ...)
             res = ex
             status = "raised"
+        _t2 = _t.time()
         after = self.snapshot((args, kw))
+        if getattr(ctx, "debug_slow", None) is not None and _t.time() - _t0 > 1.0:
+            ctx.debug_slow.append((op, round(_t1 - _t0, 2), round(_t2 - _t1, 2), round(_t.time() - _t2, 2), ctx.case_index))
         ctx.count("monitored_calls")
         ctx.count("input_objects_compared", nobj)
         ctx.count("calls_returned" if status == "ok" else "calls_raised")
